@@ -11,7 +11,7 @@ META = {
     'text': 'Theorems (Properties_C09.v): days_apart_and_name_carries_day, indices_increase (per date strictly increasing in rotation order across restarts, compression, removals), never_overwritten (no (date,index) is handed out twice), keys_strictly_increase, never_rotates_empty, civil_dates_monotone — for every history of write / clock advance / restart / foreign-file operations, every L, N, '
             'option set and timestamp granularity.  They are about the very definitions that are extracted and run against the real '
             'RotatingFileSink (directory listing identical after every operation); the oracle prop_c09_b, proved true on every model '
-            'world, is evaluated on the implementation\'s listings with ghost data reconstructed from the written history.',
+            'world, is evaluated on the implementation\'s listings with ghost data reconstructed from the written history.  Harness-only probes (outside the model): a message object constructed before midnight and sent after it to a sink whose log is empty (never rotates an empty log, every .gz a gzip file); a zone with daylight-saving time (TZ=CET-1CEST,M3.5.0,M10.5.0/3) around the 23-hour and 25-hour local days.',
     'note': rotate_util.META_NOTE,
     'design_ref': 'DESIGN.md section 4, C05/C06/C07/C09',
     'engine': 'coq+extraction+harness',
